@@ -30,7 +30,21 @@ RULE = ("seeded random metadata worlds (1-3 sources, 1-3 SPs, 0-2 IdPs, 1-3 endp
         "binding; do_logout over entity lists x expected binding x preference (stub transport); "
         "DiscoveryServer.verify_return over 8 return-URL classes. non-trivial = distinct (operation kind, input "
         "classes, outcome kind)")
-TRUSTED = ["metadata templates and abstraction in harness/c08.py (abstract metadata = what the templates render)",
+def regenerate_tables(ctx):
+    """Translator: DiscoveryServer.verify_return as it reads NOW -> coq/gen/C08Src.v; C08/Source.v proves it equal to the
+    model (the metadata lookup discovery_response is a parameter)."""
+    import os
+    from harness import common, env, py2coq
+    return py2coq.regenerate(os.path.join(common.GEN, "C08Src.v"), [
+        (os.path.join(env.SRC, "saml2", "discovery.py"), "DiscoveryServer.verify_return",
+         {"name": "src_verify_return", "params": ["self", "entity_id", "return_url"],
+          "extra_params": [("discovery_response", "pyval -> pyval")],
+          "calls": {"self.metadata.discovery_response": lambda a: "(discovery_response %s)" % a[0]}})])
+
+
+TRUSTED = ["source-to-Gallina translator harness/py2coq.py + coq/theories/Base/Py.v (DiscoveryServer.verify_return is re-translated "
+           "from the source text on every run; c08_source_verify_return proves it equal to the model)",
+           "metadata templates and abstraction in harness/c08.py (abstract metadata = what the templates render)",
            "observation wrappers around Entity.apply_binding / create_logout_request / send in harness/c08.py"]
 ASSUMPTIONS = ["every endpoint element carries non-empty Binding and Location attributes; no AttributeConsumingService "
                "elements (they have no Binding; AttributeQuery answering then raises KeyError)",
